@@ -39,9 +39,13 @@ CHECKS['C10'] = dict(engine='proc-sim+net', level='exploration', technique='dete
 CHECKS['C11'] = dict(engine='proc-sim+fs', level='exploration', technique='deterministic simulation of install histories over a persistent DESTDIR: each install/uninstall step runs in a forked child whose every file-system mutation is observed through an audit hook (containment, dry-run), with simulator-chosen ambient umask, mtime skew (the clock --only-changed depends on), pre-populated DESTDIR and DESTDIR source; resulting trees compared with a reference model computed from the project spec',
    text='Seeded search over generated install rule sets and bounded histories (install, reinstall, --only-changed, --dry-run, --tags, --skip-subprojects, uninstall). Containment is checked on every recorded mutation, exactness and reversibility on the tree after each step.',
    note='Trusted: models/install_ref.py (destinations, modes, tags from the documented rules); the audit hook sees all Python-level mutations of the in-process installer (no external helper runs in these projects). Real code: create_install_data, minstall.Installer, scripts/uninstall.', ref='DESIGN §3 C11')
+CHECKS['C05'] = dict(engine='ninja-sim', level='exploration', technique='deterministic simulation of the build scheduler: the real generated build.ninja is executed by a reference ninja (parser + evaluator + executor written for this check) whose choice among ready edges is seeded/adversarial; the injected fault is absence - each edge is replayed hermetically with only configure-time files and the declared outputs of its ancestors present; outputs compared by digest across schedules',
+   text='Seeded search over generated C projects and over schedules (reverse, consumers-first, generators-last, random) plus a complete per-edge hermetic replay for every sampled project.',
+   note='Trusted: sim/ninja implements the manifest subset meson emits (scoping per the ninja manual); steps are atomic; first builds only. Real code: meson setup with the ninja backend, cc/ar/sh/python steps.', ref='DESIGN §3 C05')
+CHECKS['C06'] = dict(engine='nd-seams', level='exploration', technique='deterministic simulation of the nondeterminism itself: the same project and options are configured several times at one build-dir path under simulator-chosen PYTHONHASHSEED, environment order/padding, directory-listing permutation and history (fresh, reconfigure, configure round trip, wipe) and compared byte for byte with a baseline; a clock jump (uniform back-dating) precedes a no-change reconfigure to check untouched mtimes',
+   text='Seeded search over projects, seam settings and histories; each group is 5-8 real meson processes.',
+   note='Trusted: the launcher wraps os.listdir/os.scandir (hence os.walk/glob/Path.iterdir); same tools and paths within a group. Real code: whole configure pipeline in a real interpreter per configuration.', ref='DESIGN §3 C06')
 PENDING = {
- 'C05': 'claimed in DESIGN §3 (ninja-sim schedules + hermetic replay) - check not built yet in this revision',
- 'C06': 'claimed in DESIGN §3 (nondeterminism seams) - check not built yet in this revision',
 }
 m = {
  'version': 1,
@@ -49,6 +53,8 @@ m = {
  'hooks': {'guard': 'MESON_VERIF_SIM', 'enable': 'no hook exists in /repo: every seam is reached from outside (event-loop policy, attribute patching in forked children, PATH, LD_PRELOAD, audit hooks); the guard name is reserved and unused',
            'baseline_off_cmd': PIN, 'source_commits': [], 'add_only': True},
  'engines': [
+   {'name': 'ninja-sim', 'path': 'sim/ninja', 'serves_properties': ['C05'], 'kind_free_text': 'reference ninja: manifest parser/evaluator + executor whose scheduler is the simulator; hermetic per-edge replay'},
+   {'name': 'nd-seams', 'path': 'sim/nd', 'serves_properties': ['C06'], 'kind_free_text': 'launcher that puts hash seed, environment order/padding and directory-listing order of a real meson process under simulator control'},
    {'name': 'proc-sim', 'path': 'sim/core', 'serves_properties': ['C08', 'C10', 'C11'], 'kind_free_text': 'warm host process forking one child per meson command over shared persistent state (build dir / DESTDIR / subprojects); seams patched inside the child'},
    {'name': 'crash-shim', 'path': 'sim/crash', 'serves_properties': ['C09'], 'kind_free_text': 'LD_PRELOAD interposer (C) numbering file-system mutations of the main process and killing it at point k; forked-child recovery runs'},
    {'name': 'aio-sim', 'path': 'sim/aio', 'serves_properties': ['C12', 'C18'], 'kind_free_text': 'virtual-time asyncio event loop + scripted child processes/pipes/signals; real asyncio stream + subprocess protocol stack on top'},
